@@ -1,5 +1,6 @@
 import SlugModel.Lemmas.TrEq_isWithin
 import SlugModel.Lemmas.TrEq_validSymlink
+import SlugModel.Lemmas.TrEq_newUnpackInfo
 /-!
 # C01 (tie by translation)
 
@@ -20,5 +21,15 @@ theorem C01_tie_validSymlink (cwd : Str) (allow : List Str) (root path target : 
     Gen.validSymlink cwd allow root path target =
       (validSymlink cwd allow root path target, !validSymlink cwd allow root path target) :=
   gen_validSymlink cwd allow root path target
+
+/-- **C01_tie_newUnpackInfo.** The model's `newUnpackInfo` is the translated `NewUnpackInfo`
+(internal/unpackinfo/unpackinfo.go), for every filesystem, destination and entry: a normal return carries the
+model's extraction path and the header's type flag, an error return is the model's `none`. -/
+theorem C01_tie_newUnpackInfo (fs : FS) (dst : Str) (e : Entry) :
+    Gen.newUnpackInfo fs dst e.name e.typ =
+      (match newUnpackInfo fs dst e with
+       | some p => (({ path := p, typeflag := e.typ } : Go.UnpackInfo), false)
+       | none => (({ path := [], typeflag := Char.ofNat 0 } : Go.UnpackInfo), true)) :=
+  gen_newUnpackInfo fs dst e
 
 end Slug
